@@ -629,6 +629,10 @@ func (c *Client) proposalParent(prop ChannelProposal, partIdx channel.Index) (pa
 	case *SubChannelProposalMsg:
 		parentChannelID = &prop.Parent
 	case *VirtualChannelProposalMsg:
+		if int(partIdx) >= len(prop.Parents) {
+			err = errors.Errorf("no parent channel for participant %d: got %d parent channels", partIdx, len(prop.Parents))
+			return
+		}
 		parentChannelID = &prop.Parents[partIdx]
 	}
 
